@@ -68,6 +68,23 @@ theorem pow_loop (A : Cl n sig) (k : Nat) (hk : 1 ≤ k) :
     rw [List.range_succ, List.foldl_append, ih (by omega)]
     simp [pow_succ]
 
+/-- a fold that ignores the list elements only depends on the length -/
+theorem foldl_ignore_len {α β γ : Type} (f : α → α) (l₁ : List β) (l₂ : List γ) (h : l₁.length = l₂.length) (a : α) :
+    l₁.foldl (fun acc _ => f acc) a = l₂.foldl (fun acc _ => f acc) a := by
+  induction l₁ generalizing l₂ a with
+  | nil => cases l₂ with
+    | nil => rfl
+    | cons y ys => simp at h
+  | cons x xs ih => cases l₂ with
+    | nil => simp at h
+    | cons y ys => simp only [List.foldl_cons]; exact ih ys (by simpa using h) (f a)
+
+/-- the same loop written with `range(1, k)` -/
+theorem pow_loop' (A : Cl n sig) (k : Nat) (hk : 1 ≤ k) :
+    (List.range' 1 (k - 1)).foldl (fun acc _ => acc * A) A = A ^ k := by
+  rw [← pow_loop A k hk]
+  exact foldl_ignore_len (fun acc => acc * A) _ _ (by simp) A
+
 /-- negative powers: the |k|-fold product of the inverse is the inverse of the |k|-fold product -/
 theorem inv_pow (M X : Cl n sig) (h : X * M = 1) (k : Nat) : X ^ k * M ^ k = 1 := by
   have hc : M * X = 1 := left_inv_imp_right_inv' X M h
